@@ -34,8 +34,8 @@ impl C02 {
         C02 {
             tier,
             seed,
-            n_gen: scaled(tier.pick(25_000, 600_000), scale),
-            n_comp: scaled(tier.pick(15_000, 400_000), scale),
+            n_gen: scaled(tier.pick(15_000, 600_000), scale),
+            n_comp: scaled(tier.pick(9_000, 400_000), scale),
             n_shape: scaled(tier.pick(160, 3_200), scale),
         }
     }
@@ -248,7 +248,7 @@ impl Monitor for C02 {
     }
 
     fn run_case(&mut self, k: u64, ctx: &mut Ctx) {
-        let max_plain = self.tier.pick(60_000, 400_000);
+        let max_plain = self.tier.pick(200_000, 500_000);
         let (label, base, mut r) = if k < self.n_gen {
             let mut r = Rng::derive(self.seed, 0x0201, k, 0);
             match streams::generator_stream(&mut r, max_plain) {
